@@ -6,3 +6,6 @@ dcopy = z3.Function('dcopy', V, V)             # copy.deepcopy of a value (ident
 jdumps = z3.Function('jdumps', V, Str)         # jsonutils.dumps
 fs_exists = z3.Function('fs_exists', Str, Bool)
 fs_readable = z3.Function('fs_readable', Str, Bool)
+
+from pyvc.values import MapSV
+policy_values = z3.Function('policy_values', V, MapSV)   # content of RequestContext.to_policy_values()
